@@ -262,7 +262,7 @@ def run_config(contract, cfg, facets="VCSTRN", prime=None, tier="quick", max_pat
                 break
             c.entry = c.snapshot()
             start = len(g.trace)
-            w.target = contract.name
+            w.target = contract.target
             w.target_entered = False
             outcome = None
             try:
@@ -284,7 +284,7 @@ def run_config(contract, cfg, facets="VCSTRN", prime=None, tier="quick", max_pat
                     raise
                 outcome = ("exc", e)
             if not w.target_entered and not contract.probe:
-                res["engine_errors"].append("target function %s was never entered by setup()" % contract.name)
+                res["engine_errors"].append("target function %s was never entered by setup()" % contract.target)
             worklist.extend(P.pending)
             res["paths"] += 1
             res["unknown_forks"] += P.unknown_forks
@@ -314,7 +314,7 @@ def run_config(contract, cfg, facets="VCSTRN", prime=None, tier="quick", max_pat
             if outcome[0] == "exc":
                 e = outcome[1]
                 res["raise_paths"] += 1
-                if "R" in facets:
+                if "R" in facets and not contract.raises_unspecified:
                     matching = [(i, cond) for i, (exc, cond) in enumerate(raises) if isinstance(e, exc)]
                     if not matching:
                         obs.append(("R.unexpected_exception[%s]" % type(e).__name__, [], z3.BoolVal(False), None))
@@ -330,7 +330,7 @@ def run_config(contract, cfg, facets="VCSTRN", prime=None, tier="quick", max_pat
             else:
                 res["normal_paths"] += 1
                 r = outcome[1]
-                if "R" in facets:
+                if "R" in facets and not contract.raises_unspecified:
                     for i, (exc, cond) in enumerate(raises):
                         obs.append(("R.cond_implies_raise[%s#%d]" % (exc.__name__, i), [], z3.Not(formula(cond)), None))
                 with _entry_state(c):
